@@ -9,10 +9,26 @@ import monitors
 NONE = ()
 
 
+def probe(cmd, timeout=1800):
+    """Run a probe of the real crate.  A probe that hangs or dies is an observation like any other
+    (the expected output then does not match and the command line is the replay), not a crash of
+    the check."""
+    import subprocess
+    try:
+        p = subprocess.run(cmd, timeout=timeout, env=vlib.ENV, capture_output=True, text=True)
+    except subprocess.TimeoutExpired as e:
+        so = e.stdout.decode() if isinstance(e.stdout, bytes) else (e.stdout or "")
+        return so + "\nPROBE-HANG: %s still running after %d s" % (os.path.basename(cmd[0]), timeout)
+    if p.returncode != 0:
+        return p.stdout + "\nPROBE-DIED: %s exit code %d: %s" % (os.path.basename(cmd[0]), p.returncode, p.stderr[-400:])
+    return p.stdout
+
+
+
 def extra_result_table(tier, seed):
     """C05: all 18 ActorResult shapes x every query method / conversion, real vs model (exhaustive)."""
     bins = vlib.build_harness((), bins=("director", "result_enum"))
-    real = vlib.sh([bins["result_enum"]], check=True).stdout.splitlines()
+    real = probe([bins["result_enum"]], 600).splitlines()
     model = vlib.sh([vlib.DRIVER, "--result-table"], check=True).stdout.splitlines()
     extra_real = [l for l in real if l.startswith("retryable ") and l.split()[1] in ("downcast", "runtime", "mailbox_capacity")]
     real_cmp = [l for l in real if l not in extra_real]
@@ -32,7 +48,7 @@ def extra_result_table(tier, seed):
 def extra_join_probe(tier, seed):
     """C03 (ask_join clause): every case the model's ask_join distinguishes, on the real crate."""
     bins = vlib.build_harness((), bins=("director", "join_probe"))
-    real = vlib.sh([bins["join_probe"]], timeout=300, check=True).stdout.strip().splitlines()
+    real = probe([bins["join_probe"]], 300).strip().splitlines()
     model = vlib.sh([vlib.DRIVER, "--join-table"], check=True).stdout.strip().splitlines()
     viol = []
     # the probe runs some cases several times under different fates of the actor after the reply
@@ -58,7 +74,7 @@ def extra_dd_probe(tier, seed):
     for.  Oracle: no residue (graph empty once no ask is in flight), the peer's later ask towards the
     actor does not trip the detector, the mutex is not poisoned."""
     bins = vlib.build_harness(("dd",), bins=("director", "dd_probe"))
-    real = vlib.sh([bins["dd_probe"]], timeout=300, check=True).stdout.strip().splitlines()
+    real = probe([bins["dd_probe"]], 300).strip().splitlines()
     viol = []
     if real != DD_PROBE_EXPECTED:
         diff = [(r, e) for r, e in zip(real, DD_PROBE_EXPECTED) if r != e]
@@ -73,7 +89,7 @@ def extra_lazy_probe(tier, seed):
     poll, so an unpolled future that is dropped delivers nothing and a deferred one is ordered by its
     first poll."""
     bins = vlib.build_harness((), bins=("director", "lazy_probe"))
-    real = vlib.sh([bins["lazy_probe"]], timeout=300, check=True).stdout.strip().splitlines()
+    real = probe([bins["lazy_probe"]], 300).strip().splitlines()
     want = "unpolled=[] deferred=[2, 1] raced=[8] oks=111"
     viol = []
     bad = [l for l in real if l.split(" ", 1)[1] != want]
@@ -91,7 +107,7 @@ def extra_dd_race(tier, seed):
     it is a violation again if it returns."""
     bins = vlib.build_harness(("dd",), bins=("director", "dd_race_probe"))
     rounds = 3000 if tier == "quick" else 30000
-    out = vlib.sh([bins["dd_race_probe"], str(rounds)], timeout=1800, check=True).stdout.strip()
+    out = probe([bins["dd_race_probe"], str(rounds)], 1800).strip()
     want = "rounds=%d detected=%d hung=0 other=0 survivor_hung=0 edges_end_minus_hung=0" % (rounds, rounds)
     viol = []
     if out.strip() != want:
@@ -106,13 +122,46 @@ def extra_late_push(tier, seed):
     about one racing ask in 5000 never did.)"""
     bins = vlib.build_harness((), bins=("director", "late_push_probe"))
     rounds = 3000 if tier == "quick" else 30000
-    out = vlib.sh([bins["late_push_probe"], str(rounds), "8"], timeout=1800, check=True).stdout.strip()
+    out = probe([bins["late_push_probe"], str(rounds), "8"], 900).strip()
     want = "asks=%d hung=0" % (rounds * 8)
     viol = []
     if out.strip() != want:
         viol.append(dict(what="asks do not return after their target has ended", real=out, expected=want,
                          replay_cmd="late_push_probe %d 8" % rounds))
     return dict(violations=viol, coverage=dict(late_push=out))
+
+
+def _mt_stress(feats, tier, seed, what):
+    bins = vlib.build_harness(feats, bins=("director", "mt_stress"))
+    rounds = 20000 if tier == "quick" else 200000
+    out = probe([bins["mt_stress"], str(rounds), str(seed % 100000 + 1)], 1500).strip()
+    viol = []
+    if not (out.startswith("rounds=%d " % rounds) and out.endswith(" violations=0")):
+        viol.append(dict(what=what, real=out, expected="rounds=%d ops=<n> violations=0" % rounds,
+                         replay_cmd="mt_stress %d %d  (features %s)" % (rounds, seed % 100000 + 1, ",".join(feats) or "none")))
+    return dict(violations=viol, coverage=dict(mt_stress=out, mt_stress_features=list(feats)))
+
+
+def extra_mt_stress(tier, seed):
+    """C01-C05, C11 under real parallelism (8 worker threads): random rounds of 1-4 actors with small
+    mailboxes and 2-7 concurrent clients doing tell / ask / *_with_timeout / stop / kill and asks
+    issued from inside handlers, judged by rules that need no model: nothing handled twice, nothing
+    handled after its sender was told Err(Send) (or a tell Err(Timeout)), per-sender order, an ask's
+    Ok value is the one computed for that very request, every operation returns, on_start first /
+    on_stop last and once, the killed flag of the result is the one on_stop saw and is true only if
+    a kill was accepted, ids unique.  A supporting test: the model's schedules are those of one
+    thread."""
+    return _mt_stress((), tier, seed, "a model-free rule failed under a multi-thread random workload (see the probe output)")
+
+
+def extra_mt_stress_feat(tier, seed):
+    """C12, C13, C15, C20 under real parallelism: the same workload on a build with
+    deadlock-detection, test-utils, metrics and tracing.  The asks issued from handlers only go to
+    higher-numbered actors, so no cycle exists: no actor may panic (C12); the dead-letter counter
+    moves per round by exactly the number of failed deliveries (C13); the wait-for graph is empty
+    whenever every actor has ended (C15); message_count equals the handlers entered, stays readable
+    after the end, avg <= max, snapshot = accessors (C20)."""
+    return _mt_stress(("dd", "metrics", "testutils", "tracing"), tier, seed, "a model-free rule failed under a multi-thread random workload on the feature build (see the probe output)")
 
 
 def extra_id_stress(tier, seed):
@@ -123,7 +172,7 @@ def extra_id_stress(tier, seed):
     runs = [(16, 500), (4, 2000), (32, 100)] if tier == "quick" else [(16, 4000), (64, 500), (4, 20000), (32, 2000)]
     viol, rows = [], []
     for th, per in runs:
-        out = vlib.sh([bins["id_stress"], str(th), str(per)], timeout=900, check=True).stdout.strip()
+        out = probe([bins["id_stress"], str(th), str(per)], 900).strip()
         n = th * per
         want = "spawned=%d distinct=%d min=1 max=%d contiguous=true unstable=0" % (n, n, n)
         rows.append(dict(threads=th, per_thread=per, real=out))
@@ -141,7 +190,7 @@ def extra_config_probe(tier, seed):
         seqs += ["2", "4,4,4", "0,0,9", "64", "33"]
     viol, rows = [], []
     for q in seqs:
-        real = vlib.sh([bins["config_probe"], q], check=True).stdout.strip()
+        real = probe([bins["config_probe"], q], 300).strip()
         model = vlib.sh([vlib.DRIVER, "--config", q], check=True).stdout.strip()
         rows.append(dict(sets=q, real=real, model=model))
         if real != model:
@@ -207,8 +256,8 @@ def extra_metrics_probe(tier, seed):
     """C20: wall-clock scenarios on a metrics build: counts exact, durations by inequality."""
     bins = vlib.build_harness(("metrics",), bins=("director", "metrics_probe"))
     n = 40 if tier == "quick" else 400
-    out = vlib.sh([bins["metrics_probe"], str(seed), str(n)], timeout=1200, check=True).stdout.splitlines()
-    viol = [dict(what="metrics probe failed", scenario=l, replay_cmd="metrics_probe %d %d" % (seed, n)) for l in out if l.startswith("FAIL")]
+    out = probe([bins["metrics_probe"], str(seed), str(n)], 1200).splitlines()
+    viol = [dict(what="metrics probe failed", scenario=l, replay_cmd="metrics_probe %d %d" % (seed, n)) for l in out if l.startswith(("FAIL", "PROBE-"))]
     return dict(violations=viol, coverage=dict(metrics_scenarios=len(out), metrics_sample=out[:2]))
 
 
@@ -356,17 +405,19 @@ PROPS = {
         props_file="Props/C01.v",
         families=[("core", NONE, 150), ("time", NONE, 100), ("fault", NONE, 50), ("exh", NONE, 3)],
         projection="C01", monitors=["C01"],
+        extra=[extra_mt_stress],
     ),
     "C02": dict(
         props_file="Props/C02.v",
         families=[("core", NONE, 150), ("time", NONE, 100), ("exh", NONE, 3)],
         projection="C02", monitors=["C02"],
+        extra=[extra_mt_stress],
     ),
     "C03": dict(
         props_file="Props/C03.v",
         families=[("fault", NONE, 150), ("multi", NONE, 60), ("core", NONE, 100), ("hostile", NONE, 40), ("exh", NONE, 3)],
         projection="C03", monitors=["C03"],
-        extra=[extra_join_probe, extra_late_push],
+        extra=[extra_join_probe, extra_late_push, extra_mt_stress],
         level_note="Reply integrity and 'the next poll after the target has ended finishes the operation' are proved for every reachable state; that tokio actually wakes the asker (oneshot/channel-close wakers) is runtime behaviour tied only by the correspondence runs to quiescence; ask_join is modelled as a pure function of the ask's result and of how the spawned task ended (value / panic / abort), proved exact (C03_ask_join_exact) and compared with the real crate on every case (join_probe); the task itself and tokio's JoinHandle are exercised, not modelled. On a multi-thread runtime the no-hang clause was violated by a rare race (an envelope pushed after the mailbox had been drained; found by the stress probes, repaired by a fix: commit in /repo, DESIGN.md 7b); the late_push_probe keeps watching for it.",
     ),
     "C07": dict(
@@ -379,13 +430,13 @@ PROPS = {
         props_file="Props/C11.v",
         families=[("core", NONE, 200), ("hostile", NONE, 50), ("fault", NONE, 50), ("exh", NONE, 3)],
         projection="C11", monitors=["C11"],
-        extra=[extra_id_stress],
+        extra=[extra_id_stress, extra_mt_stress],
     ),
     "C12": dict(
         props_file="Props/C12.v",
         families=[("multi", NONE, 150), ("multi", ("dd",), 150), ("fault", NONE, 100)],
         projection="C12", monitors=["C03", "C04", "C05", "C11", "C12"],
-        extra=[extra_dd_probe],
+        extra=[extra_dd_probe, extra_mt_stress_feat],
     ),
     "C08": dict(
         props_file="Props/C08.v",
@@ -409,6 +460,7 @@ PROPS = {
         props_file="Props/C13.v",
         families=[("time", ("testutils",), 150), ("fault", ("testutils",), 100), ("core", NONE, 50), ("block", NONE, 25)],
         projection="C13", monitors=["C13"],
+        extra=[extra_mt_stress_feat],
     ),
     "C14": dict(
         props_file="Props/C14.v",
@@ -421,7 +473,7 @@ PROPS = {
         props_file="Props/C15.v",
         families=[("multi", ("dd",), 300)],
         projection="C15", monitors=["C15"],
-        extra=[extra_dd_probe],
+        extra=[extra_dd_probe, extra_mt_stress_feat],
         classify=monitors.classify_stale,
         level_text="The full statement is refuted in the model by a closed witness (C15_refuted) that replays on the real code (known finding, KNOWN_FINDINGS.txt). Proved for every reachable state (ids unique): a detection panic implies a chain of tracked edges; every tracked edge is an operation begun by the running hook of the key's actor that has not yet returned to it (so the only unsoundness is an answered-but-not-yet-resumed ask); non-actor callers are never tracked; no residue - the graph is empty once every operation has returned, and an actor whose hook awaits nothing has no edge. The real wait-for graph is compared with the model's at every quiescent point through the verification hook.",
         level_note="Partial only in that the property as stated is false of the code (known finding); everything else is an invariant proof plus correspondence.",
@@ -459,19 +511,20 @@ PROPS = {
         props_file="Props/C20.v",
         families=[("core", ("metrics",), 150), ("fault", ("metrics",), 100)],
         projection="C20", monitors=["C04"],
-        extra=[extra_metrics_probe],
+        extra=[extra_metrics_probe, extra_mt_stress_feat],
         level_note="Counts are proved and compared exactly; real durations are wall-clock values compared by inequality only (max >= a handler's own measured time, avg <= max, snapshot = accessors) - partial for the duration clauses.",
     ),
     "C04": dict(
         props_file="Props/C04.v",
         families=[("core", NONE, 150), ("fault", NONE, 150), ("exh", NONE, 3)],
         projection="C04", monitors=["C04", "C06"],
+        extra=[extra_mt_stress],
     ),
     "C05": dict(
         props_file="Props/C05.v",
         families=[("core", NONE, 150), ("fault", NONE, 150), ("exh", NONE, 3)],
         projection="C05", monitors=["C05"],
-        extra=[extra_result_table],
+        extra=[extra_result_table, extra_mt_stress],
     ),
     "C06": dict(
         props_file="Props/C06.v",
